@@ -56,6 +56,21 @@ def run(ctx, rep):
     rep.rules.append('%d random sentences (<=60 tokens, <=6 distinct leaves: role / literal-vs-target / @ / !) each in '
                      'plain form, 2-4 random layouts (whitespace set of str.isspace, keyword case, glued parentheses) '
                      'and with one extra grouping' % n_rand)
+    # (ii') sentences in which one operand is a quote-delimited token: such a token is a string,
+    # never a check, so the rule is not a sentence whether or not parentheses are glued to it
+    qpool = ["'a':'b'", '"x:y"', "'role:r0'", '"@"', "'k':'%(k0)s'"]
+    n_q = ctx.n(150, 3000)
+    for _ in range(n_q):
+        e = gen.gen_e0(ctx.rng, ctx.rng.choice([1, 2, 3]), lambda r: r.choice(pool + qpool * 2))
+        if not any(l in qpool for l in gen.leaves(e)):
+            continue
+        toks = gen.render(e)
+        plain = gen.layout(ctx.rng, toks, plain=True)
+        cases.append({'kind': 'quoted', 'text': plain, 'e': None, 'toks': toks})
+        for _ in range(3):
+            cases.append({'kind': 'layout', 'text': gen.layout(ctx.rng, toks), 'e': None, 'toks': toks, 'plain': plain})
+    rep.rules.append('%d sentences with a quote-delimited operand, each in plain form and 3 layouts (parentheses glued '
+                     'to the quoted token): all spellings must parse alike' % n_q)
     # build requests
     reqs, plan = [], []
     for c in cases:
